@@ -824,8 +824,14 @@ pub fn run_c15(s: &mut Sink) {
             // offsets matter to the renderer only where printed, but the field must be reported always
             let offset_set: Vec<i16> = if uo || thorough { offs.clone() } else { O16.to_vec() };
             let imm_set: Vec<i32> = if ui { imms.clone() } else { I32S[..8].to_vec() };
+            let small = offs_alphabet(false);
             for off in &offset_set {
-                for imm in &imm_set {
+                // thorough (all 65536 offsets): the full immediate set only at the boundary offsets
+                let boundary = !thorough || small.binary_search(off).is_ok();
+                for (ii, imm) in imm_set.iter().enumerate() {
+                    if !boundary && ii % 29 != 0 {
+                        continue;
+                    }
                     let mut p = Vec::with_capacity(256);
                     for dst in 0..16u8 {
                         for src in 0..16u8 {
